@@ -352,7 +352,8 @@ def minimise(case: Case, cfg, kind):
     changed = True
     while changed:
         changed = False
-        for cf in ((cfg[0], False, cfg[2]), (cfg[0], cfg[1], False)):
+        for pos in (1, 2):  # switch autoescape / the policy off if the failure does not need them
+            cf = cfg[:pos] + (False,) + cfg[pos + 1:]
             if cf != cfg and fails(case, cf):
                 cfg, changed = cf, True
         for cs in simplifications(case):
